@@ -1,4 +1,5 @@
 import Tx3Proofs.C15
+import Tx3Proofs.C15Expr
 #print axioms Tx3.Assets.C15_wf_constructors
 #print axioms Tx3.Assets.C15_wf_ops
 #print axioms Tx3.Assets.C15_amt_add
@@ -17,3 +18,4 @@ import Tx3Proofs.C15
 #print axioms Tx3.Assets.C15_exprs
 #print axioms Tx3.Assets.C15_exprs_any_order
 #print axioms Tx3.Assets.C15_exprs_needs_proper
+#print axioms Tx3.C15_expr_sub_is_add_neg
